@@ -94,6 +94,21 @@ def methodSpec : String → Option Nat
   | "AsZ" => some S512
   | _ => none
 
+/-- The kind whose wrapper type offers a conversion method (`reg.GP`: As8 … As64
+on general-purpose registers; `reg.Vec`: AsX/AsY/AsZ on vector registers;
+opmask registers offer none). -/
+def methodKind : String → Option Nat
+  | "As8" => some kindGP
+  | "As8L" => some kindGP
+  | "As8H" => some kindGP
+  | "As16" => some kindGP
+  | "As32" => some kindGP
+  | "As64" => some kindGP
+  | "AsX" => some kindVector
+  | "AsY" => some kindVector
+  | "AsZ" => some kindVector
+  | _ => none
+
 /-- Kind and spec of a `Collection` constructor method. -/
 def ctorKindSpec : String → Option (Nat × Nat)
   | "GP8L" => some (kindGP, S8L)
@@ -197,13 +212,124 @@ def AsOK (kind idx id s : Nat) : Option (Nat × Nat × Nat) → Prop
 instance (kind idx id s : Nat) (o : Option (Nat × Nat × Nat)) : Decidable (AsOK kind idx id s o) := by
   cases o <;> unfold AsOK <;> infer_instance
 
-/-- Outcome of converting a virtual register: never fails, same identity,
-requested mask, its byte count as size. -/
-def VAsOK (id s : Nat) : Option (Nat × Nat × Nat) → Prop
-  | none => False
-  | some (id', m', sz') => id' = id ∧ m' = s ∧ sz' = byteCount (maskBytes s)
-instance (id s : Nat) (o : Option (Nat × Nat × Nat)) : Decidable (VAsOK id s o) := by
+/-- Some register of kind `kind` has the width view `spec` in hardware (a
+virtual register stands for a not yet chosen register of its kind, so this is
+what "the view exists" means for it).  `hwSpecExists_iff` in Props/C20.lean. -/
+def hwSpecExists (kind spec : Nat) : Bool :=
+  (kind == kindGP && (spec == S8L || spec == S8H || spec == S16 || spec == S32 || spec == S64)) ||
+  (kind == kindVector && (spec == S128 || spec == S256 || spec == S512)) ||
+  (kind == kindOpmask && spec == S64)
+
+/-- Outcome of converting a virtual register of kind `kind` and identity `id`
+to spec `s`: it fails exactly when no register of the kind has that view in
+hardware; otherwise same identity, requested mask, its byte count as size. -/
+def VAsOK (kind id s : Nat) : Option (Nat × Nat × Nat) → Prop
+  | none => hwSpecExists kind s = false
+  | some (id', m', sz') => hwSpecExists kind s = true ∧ id' = id ∧ m' = s ∧ sz' = byteCount (maskBytes s)
+instance (kind id s : Nat) (o : Option (Nat × Nat × Nat)) : Decidable (VAsOK kind id s o) := by
   cases o <;> unfold VAsOK <;> infer_instance
+
+/-- Outcome `(id, mask, size, kind)` of asking for a virtual register of kind
+`kind` and width `spec` (reg.NewVirtual, Family.Virtual, Collection.VirtualRegister /
+GP(s) / Vec(s); `idx` = the index when the caller chooses it): failure exactly
+when no register of that kind has such a view in hardware ("views that do not
+exist in hardware are not manufactured"); otherwise a virtual id of that kind
+(and index), the requested mask, and its byte count as size. -/
+def VNewOK (kind spec : Nat) (idx : Option Nat) : Option (Nat × Nat × Nat × Nat) → Prop
+  | none => hwSpecExists kind spec = false
+  | some (id, m, sz, k) =>
+    idIsVirtual id = true ∧ idKind id = kind ∧ k = kind ∧ idx.all (fun i => idIndex id == i) = true ∧ m = spec ∧
+    hwSpecExists kind spec = true ∧ sz = byteCount (maskBytes spec)
+instance (kind spec : Nat) (idx : Option Nat) (o : Option (Nat × Nat × Nat × Nat)) : Decidable (VNewOK kind spec idx o) := by
+  cases o <;> unfold VNewOK <;> infer_instance
+
+/-- A named `Collection` constructor (GP8L … K) hands out a virtual register of
+its kind and width — a width view that registers of the kind have in hardware. -/
+def CtorOK (ctor : String) (kind mask size id : Nat) : Prop :=
+  match ctorKindSpec ctor with
+  | none => False
+  | some (k, s) => kind = k ∧ mask = s ∧ size = byteCount (maskBytes s) ∧ idIsVirtual id = true ∧ idKind id = k ∧
+      hwSpecExists k s = true
+instance (ctor : String) (kind mask size id : Nat) : Decidable (CtorOK ctor kind mask size id) := by
+  unfold CtorOK; split <;> infer_instance
+
+/-- An id with the virtual flag never resolves to a physical register. -/
+def VirtualLookupOK (id : Nat) (res : Option RegRow) : Prop := idIsVirtual id = true → res = none
+instance (id : Nat) (res : Option RegRow) : Decidable (VirtualLookupOK id res) := by unfold VirtualLookupOK; infer_instance
+
+/-- `reg.LookupID` on a value whose flag byte is neither 0 nor 1 (never built
+by avo; the property does not say what happens): nothing, or the register the
+kind and index fields name with the requested mask — never another register. -/
+def JunkLookupOK (id s : Nat) : Option RegRow → Prop
+  | none => True
+  | some p => p.id = newid 0 (idKind id) (idIndex id) ∧ p.mask = s
+instance (id s : Nat) (o : Option RegRow) : Decidable (JunkLookupOK id s o) := by
+  cases o <;> unfold JunkLookupOK <;> infer_instance
+
+/-- A `Collection` may refuse allocation number `n` (0-based) of a kind only
+when the 2¹⁶ indexes of the kind are used up. -/
+def AllocFailOK (n : Nat) : Prop := 65536 ≤ n
+instance (n : Nat) : Decidable (AllocFailOK n) := by unfold AllocFailOK; infer_instance
+
+/-! ### Exported register variables (reg.ECX, reg.R10W, reg.X7 …)
+
+What a variable NAME denotes is the x86-64 / avo naming convention, written
+down here by hand (trusted; nothing is taken from avo): register class, number,
+width in bytes, legacy high-byte flag. -/
+structure Denot where
+  cls : Nat
+  num : Nat
+  width : Nat
+  hi : Bool
+  deriving Repr, DecidableEq, Inhabited
+
+def numbered (names : List String) (cls width : Nat) (hi : Bool) : List (String × Denot) :=
+  (List.range names.length).zip names |>.map fun p => (p.2, ⟨cls, p.1, width, hi⟩)
+
+def varDenotes : List (String × Denot) :=
+  numbered ["AL", "CL", "DL", "BL", "SPB", "BPB", "SIB", "DIB", "R8B", "R9B", "R10B", "R11B", "R12B", "R13B", "R14B", "R15B"] kindGP 1 false ++
+  numbered ["AH", "CH", "DH", "BH"] kindGP 1 true ++
+  numbered ["AX", "CX", "DX", "BX", "SP", "BP", "SI", "DI", "R8W", "R9W", "R10W", "R11W", "R12W", "R13W", "R14W", "R15W"] kindGP 2 false ++
+  numbered ["EAX", "ECX", "EDX", "EBX", "ESP", "EBP", "ESI", "EDI", "R8L", "R9L", "R10L", "R11L", "R12L", "R13L", "R14L", "R15L"] kindGP 4 false ++
+  numbered ["RAX", "RCX", "RDX", "RBX", "RSP", "RBP", "RSI", "RDI", "R8", "R9", "R10", "R11", "R12", "R13", "R14", "R15"] kindGP 8 false ++
+  numbered ["X0", "X1", "X2", "X3", "X4", "X5", "X6", "X7", "X8", "X9", "X10", "X11", "X12", "X13", "X14", "X15", "X16", "X17", "X18", "X19", "X20", "X21", "X22", "X23", "X24", "X25", "X26", "X27", "X28", "X29", "X30", "X31"] kindVector 16 false ++
+  numbered ["Y0", "Y1", "Y2", "Y3", "Y4", "Y5", "Y6", "Y7", "Y8", "Y9", "Y10", "Y11", "Y12", "Y13", "Y14", "Y15", "Y16", "Y17", "Y18", "Y19", "Y20", "Y21", "Y22", "Y23", "Y24", "Y25", "Y26", "Y27", "Y28", "Y29", "Y30", "Y31"] kindVector 32 false ++
+  numbered ["Z0", "Z1", "Z2", "Z3", "Z4", "Z5", "Z6", "Z7", "Z8", "Z9", "Z10", "Z11", "Z12", "Z13", "Z14", "Z15", "Z16", "Z17", "Z18", "Z19", "Z20", "Z21", "Z22", "Z23", "Z24", "Z25", "Z26", "Z27", "Z28", "Z29", "Z30", "Z31"] kindVector 64 false ++
+  numbered ["K0", "K1", "K2", "K3", "K4", "K5", "K6", "K7"] kindOpmask 8 false
+
+/-- The Go assembler's pseudo registers by the name of avo's variable. -/
+def pseudoVars : List (String × String) :=
+  [("FramePointer", "FP"), ("ProgramCounter", "PC"), ("StaticBase", "SB"), ("StackPointer", "SP")]
+
+/-- The exported variable `name` holds register `r` (what its value reports):
+`r` is a register of avo's families (row `i` of `tbl`; `oracle` is aligned with
+`tbl`, so its `i`-th group `g` are the measurements of `r`'s assembler name in
+`r`'s width context); and when the name is a hardware register name: every
+measurement in `g` (there is at least one) assembled to exactly the register class, number,
+width and byte half the VARIABLE's name denotes, and `r` reports that class,
+number, width and those bytes.  A pseudo-register variable holds the pseudo
+register of that assembler name.  (Names outside both tables — none today — are
+only required to hold a register of the families.) -/
+def VarHwOK (g : List HWRow) (r : RegRow) : Option Denot → Prop
+  | none => True
+  | some d =>
+    physical r ∧ g ≠ [] ∧
+    (∀ h ∈ g, Matches r h ∧ h.ok = true ∧ h.cls = d.cls ∧ h.num = d.num ∧ h.width = d.width ∧ h.hi = d.hi) ∧
+    r.kind = d.cls ∧ r.idx = d.num ∧ r.size = d.width ∧ maskBytes r.mask = viewBytes d.width d.hi
+instance (g : List HWRow) (r : RegRow) (o : Option Denot) : Decidable (VarHwOK g r o) := by
+  cases o <;> unfold VarHwOK <;> infer_instance
+
+def VarPseudoOK (r : RegRow) : Option String → Prop
+  | none => True
+  | some a => r.kind = kindPseudo ∧ r.name = a
+instance (r : RegRow) (o : Option String) : Decidable (VarPseudoOK r o) := by
+  cases o <;> unfold VarPseudoOK <;> infer_instance
+
+def VarOK (tbl : List RegRow) (oracle : List (List HWRow)) (name : String) (i : Nat) (r : RegRow) : Prop :=
+  tbl[i]? = some r ∧ VarHwOK ((oracle[i]?).getD []) r (varDenotes.lookup name) ∧ VarPseudoOK r (pseudoVars.lookup name)
+instance (tbl : List RegRow) (oracle : List (List HWRow)) (name : String) (i : Nat) (r : RegRow) :
+    Decidable (VarOK tbl oracle name i r) := by
+  unfold VarOK; infer_instance
 
 /-- Two allocations (numbers `i`, `j`) of kind `k` from one collection got `idi`, `idj`. -/
 def FreshOK (k i j idi idj : Nat) : Prop :=
@@ -232,6 +358,12 @@ def hwClassBits (h : HWRow) : List Bool :=
    h.cls == 1 && h.num == 0 && h.width == 1 && !h.hi, h.cls == 1 && h.num == 1 && h.width == 1 && !h.hi,
    h.cls == 1 && h.num == 0 && h.width == 2, h.cls == 1 && h.num == 0 && h.width == 4,
    h.cls == 1 && h.num == 0 && h.width == 8, h.cls == 2 && h.num == 0 && h.width == 16]
+
+/-- The operand classification of a virtual register of a kind and width that
+exist in hardware: by kind and byte count of the mask; none of AL … XMM0. -/
+def VClassOK (kind mask : Nat) (bits : List Bool) : Prop :=
+  hwSpecExists kind mask = true → bits = classBits false kind 0 mask (byteCount (maskBytes mask))
+instance (kind mask : Nat) (bits : List Bool) : Decidable (VClassOK kind mask bits) := by unfold VClassOK; infer_instance
 
 /-- The operand classification of a physical register is the hardware's
 (`g`: the measurements made for that register). -/
